@@ -157,6 +157,8 @@ Scenario gen_c17(uint64_t seed) {
 		int ty;
 		ty = (int)r.below(NTY);  // including inputs that take no part in this mode (a header when linking): they must be ignored altogether
 		std::string base = std::string(dirs[r.below(r.coin(1, 6) ? 12 : 8)]) + (r.coin(1, 12) ? "." : "") + "f" + std::to_string(i) + (r.coin(1, 6) ? ".x" : "");
+		// "./-" + ".f0": the base name would be "-", whose derived output (-.o, -.s) is the one standard input gets
+		if (base.compare(0, 4, "./-.") == 0) base.erase(3, 1);
 		if (r.coin(1, 8) && TYPES[ty].xlang) {
 			// forced language, arbitrary or missing suffix, or standard input
 			inseq.push_back(opt_val(r, "-x", TYPES[ty].xlang));
